@@ -89,13 +89,19 @@ def main():
              "serves_properties": ["C05", "C06", "C14", "C15", "C16", "C17", "C19", "C20", "C12"],
              "kind_free_text": "TLC enumerates cases of a shape grammar with their expected observation; Python renders them to Rust programs built against /repo; observations are compared with the model's expectation"},
             {"name": "tla-conc-trace", "path": "tla/Conc.tla, tla/MC_Conc.tla, tla/ConcTrace.tla, harness/src/conc.rs, lib/engines.py",
-             "serves_properties": ["C10"],
-             "kind_free_text": "exhaustive interleavings of the specification; controlled scheduler (all schedules) and stress on the real code with trace validation by TLC"},
+             "serves_properties": ["C10", "C08", "C12", "C13"],
+             "kind_free_text": "exhaustive interleavings of the specification (calls split at their linearization points; the value chain's try_insert loop in Chain.tla); controlled scheduler (all schedules) and stress on the real code, also on the no_std + spin-lock build, with trace validation by TLC (ConcTrace.tla, ChainTrace.tla)"},
+            {"name": "tla-trace", "path": "tla/MockTrace.tla, tla/TestTrace.tla, harness/src/drive.rs, hooks/h3_trace.patch, lib/engines.py",
+             "serves_properties": ["C01", "C02", "C03", "C04"],
+             "kind_free_text": "code -> spec: a seeded random driver (and, in the thorough tier, the repository's own test suite built with an event hook on a scratch copy) produces event logs of the real mock; TLC accepts a log only if it is a behaviour of Mock.tla with all invariants holding in every state"},
+            {"name": "apalache-arith", "path": "tla/apalache/BuilderArith.tla, lib/engines.py",
+             "serves_properties": ["C02", "C04"],
+             "kind_free_text": "Apalache (SMT, unbounded integers) decides the builder / assembler index arithmetic for all natural counts; an off-by-one variant must be refuted"},
             {"name": "tla-lifecycle", "path": "tla/Lifecycle.tla, tla/MC_Life.tla, harness/src/life.rs, lib/engines.py",
              "serves_properties": ["C09", "C11", "C13"],
              "kind_free_text": "TLC enumerates lifecycle event sequences (instances, threads, unwinding, value chains); the harness executes them on real instances across two OS threads; process aborts are detected by the driver"},
             {"name": "tla-replay", "path": "tla/Mock.tla, tla/MC_Mock.tla, harness/src/replay.rs, lib/engines.py",
-             "serves_properties": sorted(k for k in CHECKS.keys() if k not in ("C09", "C10", "C11", "C13") and k not in GENPROG),
+             "serves_properties": sorted(set(k for k in CHECKS.keys() if k not in ("C09", "C10", "C13") and k not in GENPROG) | {"C14"}),
              "kind_free_text": "TLC enumerates complete behaviours of the specification (configuration x history) and prints them; the Rust harness builds the real mock through the real builder API and compares every step"},
         ],
         "checks": checks,
